@@ -59,7 +59,14 @@ fn tag_of(t: &TagSpec) -> (Tag, String) {
             (tag, name.to_string())
         }
         TagSpec::Any => (Tag::any(), "any".to_string()),
-        TagSpec::Other(s) => (Tag::try_from(s.as_str()).expect("generator yields valid tag names"), s.clone()),
+        TagSpec::Other(s) => {
+            // MPD looks tag names up case-insensitively (tag_name_parse_i): a string that is a known
+            // name in another letter case denotes that tag, and the crate (C20) renders it in the
+            // canonical spelling. The mirror therefore carries the canonical name from the harness's
+            // own table; all other strings stay as they are.
+            let name = tag_table().iter().map(|(_, n)| *n).find(|n| n.eq_ignore_ascii_case(s)).map_or_else(|| s.clone(), str::to_string);
+            (Tag::try_from(s.as_str()).expect("generator yields valid tag names"), name)
+        }
     }
 }
 
